@@ -1334,7 +1334,9 @@ func (h *env) genCase(r *vx.Rand, nOps int) {
 			h.do(fmt.Sprintf("checksum %s %s inj %s", vx.Hex(key(r)), vx.Hex(key(r)), seqInj(r)))
 		}
 	}
-	// closing full reads
+	// closing reads: a limit below the number of pairs (the scan must stop inside some region), then everything
+	h.do(fmt.Sprintf("scan - - %d 0 inj .", 1+r.Intn(4)))
+	h.do(fmt.Sprintf("rscan 7b - %d 0 inj .", 1+r.Intn(4)))
 	h.do("scan - - 100 0 inj .")
 	h.do("checksum - - inj .")
 }
